@@ -72,6 +72,42 @@ pub proof fn lemma_el_stack_ok<const K: usize>(a: AArena<K>, root: usize, s: Seq
     vstd::set_lib::lemma_len_subset(vis, d0);
     vstd::set_lib::lemma_len_subset(a.dom(), d0);
 }
+// the children pushed for the popped node: exist, hang below it, are unvisited and not yet on the stack
+pub proof fn lemma_el_next_kids<const K: usize>(a: AArena<K>, root: usize, s0: Seq<DfsNodeData>, it: DfsNodeData, vis: Set<usize>, d0: Set<usize>)
+    requires el_inv(a, root, s0, vis, root, d0), s0.len() > 0, it == s0.last(), it.depth < usize::MAX
+    ensures
+        forall|j: int| 0 <= j < kid_items(a[it.index].children, 0, (it.depth + 1) as usize).len() ==> {
+            let kd = (#[trigger] kid_items(a[it.index].children, 0, (it.depth + 1) as usize).reverse()[j]);
+            a.dom().contains(kd.index) && a[kd.index].parent == Some(it.index)
+            && !vis.insert(it.index).contains(kd.index) && kd.depth == (it.depth + 1) as usize && !on_stack(s0.drop_last(), kd.index)
+            && exists|l: int| 0 <= l < K && #[trigger] a[it.index].children[l] == Some(kd.index) && kd.n_remaining == count_some_from(a[it.index].children, l + 1)
+        }
+{
+    reveal(el_inv);
+    let n = it.index;
+    let v1 = vis.insert(n);
+    let rest = s0.drop_last();
+    let dp = (it.depth + 1) as usize;
+    let ki = kid_items(a[n].children, 0, dp);
+    let kids = ki.reverse();
+    assert(s0[s0.len() - 1] == it);
+    lemma_kid_items_props(a[n].children, 0, dp);
+    let d = choose|d: Map<usize, nat>| ranked(a, d);
+    assert forall|j: int| 0 <= j < ki.len() implies ({
+            let kd = (#[trigger] kids[j]);
+            a.dom().contains(kd.index) && a[kd.index].parent == Some(n)
+            && !v1.contains(kd.index) && kd.depth == dp && !on_stack(rest, kd.index)
+            && exists|l: int| 0 <= l < K && #[trigger] a[n].children[l] == Some(kd.index) && kd.n_remaining == count_some_from(a[n].children, l + 1)
+        }) by {
+        let c = kids[j].index;
+        assert(kids[j] == ki[ki.len() - 1 - j]);
+        let l = choose|l: int| 0 <= l < K && #[trigger] a[n].children[l] == Some(c) && kids[j].n_remaining == count_some_from(a[n].children, l + 1);
+        assert(a.dom().contains(c) && a[c].parent == Some(n));
+        assert(d[n] < d[c]);
+        if vis.contains(c) { assert(vis.contains(a[c].parent.unwrap())); }
+        if on_stack(rest, c) { let k = choose|k: int| 0 <= k < rest.len() && (#[trigger] rest[k]).index == c; assert(s0[k] == rest[k]); assert(vis.contains(n)); }
+    }
+}
 // one step of the traversal: the top entry is popped and becomes the node in progress, its children are pushed
 pub proof fn lemma_el_next<const K: usize>(a: AArena<K>, root: usize, s0: Seq<DfsNodeData>, s1: Seq<DfsNodeData>, lp: usize, it: DfsNodeData, vis: Set<usize>, d0: Set<usize>)
     requires el_inv(a, root, s0, vis, root, d0), dfs_step(a, s0, s1, lp, Some(it)), d0.len() <= i32::MAX
@@ -95,17 +131,7 @@ pub proof fn lemma_el_next<const K: usize>(a: AArena<K>, root: usize, s0: Seq<Df
     assert(v1.len() == vis.len() + 1);
     lemma_kid_items_props(a[n].children, 0, dp);
     let d = choose|d: Map<usize, nat>| ranked(a, d);
-    // the pushed children: exist, parent n, unvisited, not on the rest of the stack
-    assert forall|j: int| 0 <= j < kids.len() implies a.dom().contains((#[trigger] kids[j]).index) && a[kids[j].index].parent == Some(n)
-        && !v1.contains(kids[j].index) && kids[j].depth == dp && !on_stack(rest, kids[j].index) by {
-        let c = kids[j].index;
-        assert(kids[j] == ki[ki.len() - 1 - j]);
-        let l = choose|l: int| 0 <= l < K && #[trigger] a[n].children[l] == Some(c) && kids[j].n_remaining == count_some_from(a[n].children, l + 1);
-        assert(a.dom().contains(c) && a[c].parent == Some(n));
-        assert(d[n] < d[c]);
-        if vis.contains(c) { assert(vis.contains(a[c].parent.unwrap())); }
-        if on_stack(rest, c) { let k = choose|k: int| 0 <= k < rest.len() && (#[trigger] rest[k]).index == c; assert(s0[k] == rest[k]); assert(vis.contains(n)); }
-    }
+    lemma_el_next_kids(a, root, s0, it, vis, d0);
     assert forall|k: int| 0 <= k < s1.len() implies a.dom().contains((#[trigger] s1[k]).index) && !v1.contains(s1[k].index) && s1[k].depth <= v1.len()
             && (s1[k].index == root || (a[s1[k].index].parent is Some && v1.contains(a[s1[k].index].parent.unwrap()))) by {
         if k < rest.len() { assert(s1[k] == s0[k]); } else { assert(s1[k] == kids[k - rest.len()]); }
@@ -339,17 +365,17 @@ pub proof fn lemma_removed_summary<const K: usize>(a0: AArena<K>, am: AArena<K>,
 }
 // forward_if_redundant's contract gives the summary the bookkeeping needs
 pub proof fn lemma_fwd_pruned<const K: usize>(a0: AArena<K>, a2: AArena<K>, root: usize, p: usize)
-    requires wf_at(a0, Some(root)), a0.dom().contains(p), forward_post(a0, a2, p, root == p)
+    requires wf_at(a0, Some(root)), a0.dom().contains(p), forward_post(a0, a2, p, Some(root))
     ensures pruned_step(a0, a2, p, root)
 {
     if count_state(a0, p, 0, true) == 1 && count_state(a0, p, 0, false) == K - 1 {
         let ls = infeasible_slots(a0, p);
-        let am = choose|am: AArena<K>| #[trigger] removed_set(a0, am, p, ls)
-            && (forall|f: int| #[trigger] kid_in_state(a0, p, f, true) ==> merge_post(am, a2, p, f as usize, root == p));
+        let am = choose|am: AArena<K>| #[trigger] removed_set(a0, am, p, ls) && wf_at(am, Some(root))
+            && (forall|f: int| #[trigger] kid_in_state(a0, p, f, true) ==> merge_post(am, a2, p, f as usize, Some(root) == Some(p)));
         lemma_removed_summary(a0, am, root, p);
         lemma_count_exists(a0, p, 0, true);
         let f = choose|f: int| 0 <= f < K && kid_in_state(a0, p, f, true);
-        assert(merge_post(am, a2, p, f as usize, root == p));
+        assert(merge_post(am, a2, p, f as usize, Some(root) == Some(p)));
         assert(!kid_in_state(a0, p, f, false));
         let cf = a0[p].children[f].unwrap();
         assert(am[p].children[f] == a0[p].children[f]);
